@@ -52,6 +52,7 @@ type loopInfo struct {
 	// values captured at the header for decreases
 	decr0 []string
 	hdrEnv *env
+	hdrAlloc string // the allocation map at the loop head (allocation only grows: used as a derived fact on back edges)
 	freshNames map[string]bool
 	// range-over-func pseudo loop: the call instruction `it(yield)`; names are looked up before it in its block
 	rfCall ssa.Instruction
@@ -346,6 +347,7 @@ func (c *fctx) runBody(fr *frame, entryCond string, st *state) []retInfo {
 				}
 				c.assumeFacts(reach, fr.vals[phi].t, phi.Type(), cur)
 			}
+			li.hdrAlloc = c.region(cur, "alloc", "(Array Int Bool)")
 			c.assumeInvariants(fr, li, reach, cur)
 		}
 		// instructions
@@ -406,6 +408,13 @@ func (c *fctx) flow(fr *frame, from, to *ssa.BasicBlock, cond string, st *state,
 				break
 			}
 			vals[phi] = c.operand(fr, phi.Edges[idx])
+		}
+		if li.hdrAlloc != "" {
+			// derived fact (memory is never freed in the model): everything allocated at the loop head is still allocated
+			now := c.region(st, "alloc", "(Array Int Bool)")
+			if now != li.hdrAlloc {
+				c.assume(fmt.Sprintf("(forall ((x!a Int)) (! (=> (select %s x!a) (select %s x!a)) :pattern ((select %s x!a)) :pattern ((select %s x!a))))", li.hdrAlloc, now, li.hdrAlloc, now))
+			}
 		}
 		c.checkInvariants(fr, li, cond, st, vals, "preserved")
 		return
